@@ -1,5 +1,6 @@
 From RsdnsModel Require Import Base Names.
-From RsdnsModel.Proofs Require Import NameOrder.
+From RsdnsModel.Spec Require Import NameText.
+From RsdnsModel.Proofs Require Import NameOrder NameEqStr.
 From RsdnsModel.Properties Require Import C18.
 Open Scope N_scope.
 Check (C18_eq_iff_cmp : forall a b, name_eq a b = true <-> name_cmp a b = Eq).
@@ -9,5 +10,6 @@ Check (C18_cmp_antisym : forall a b, name_cmp a b = CompOpp (name_cmp b a)).
 Check (C18_cmp_trans : forall a b c, name_cmp a b = Lt -> name_cmp b c = Lt -> name_cmp a c = Lt).
 Check (C18_hash : forall a b, name_eq a b = true -> name_hash_feed a = name_hash_feed b).
 Check (C18_hash_is_fold : forall a, name_hash_feed a = fold_case a).
-Print Assumptions C18_eq_iff_cmp. Print Assumptions C18_eq_is_fold. Print Assumptions C18_cmp_is_lex.
-Print Assumptions C18_cmp_antisym. Print Assumptions C18_cmp_trans. Print Assumptions C18_hash. Print Assumptions C18_hash_is_fold.
+Check (C18_eq_str_is_canon : forall t s,
+  name_eq_str (t ++ [x2e]) s = name_eq (t ++ [x2e]) (canon_text s)).
+Print Assumptions C18_eq_iff_cmp. Print Assumptions C18_eq_is_fold. Print Assumptions C18_cmp_is_lex. Print Assumptions C18_cmp_antisym. Print Assumptions C18_cmp_trans. Print Assumptions C18_hash. Print Assumptions C18_hash_is_fold. Print Assumptions C18_eq_str_is_canon.
